@@ -115,7 +115,8 @@ def rate_exact_hz(d):
 
 
 # ------------------------------------------------------------------ axes given as data / time
-DERIVE = ["ctor", "plus0", "copycopy", "npcopy", "view", "fullslice", "series_time", "positional", "slice1", "step2"]
+DERIVE = ["ctor", "plus0", "copycopy", "npcopy", "view", "fullslice", "series_time", "positional", "slice1", "step2",
+          "copy_of_copy", "plus0_of_view"]          # second-generation objects too
 SLICED = ("slice1", "step2")
 
 
@@ -134,6 +135,10 @@ def derive_axis(ts, u, how):
         return u.view()
     if how == "fullslice":
         return u[:]
+    if how == "copy_of_copy":
+        return copy.copy(u.copy())
+    if how == "plus0_of_view":
+        return u.view() + 0
     if how == "slice1":
         return u[1:]
     if how == "step2":
@@ -250,13 +255,20 @@ def outcome_coq(o):
                                            flit(float.fromhex(o["rate"])), u, outcome_coq(o["time"]))
 
 
+def given_axis_coq(ad, obs):
+    if obs is None:      # the given axis could not even be observed (it lost an attribute): described, not observed
+        e = expected_axis(ad) or {"n": 0, "t0": 0, "dt": 0, "dur": 0, "unit": ad["unit"]}
+        obs = dict(e, rate=(0.0).hex())
+    return "(Some %s)" % axis_coq(obs)
+
+
 def action_coq(a, o):
     if a["act"] == "ut":
-        data = "None" if a.get("data") is None else "(Some %s)" % axis_coq(o["data_obs"])
+        data = "None" if a.get("data") is None else given_axis_coq(a["data"], o.get("data_obs"))
         return "(AUt (mk_ut_args %s %s %s %s %s %s %s))" % (
             data, ozl(a.get("length")), oval(a.get("duration")), oval(a.get("rate")), oval(a.get("si")),
             oval(a.get("t0")), uarg_coq(a["unit"]))
-    tm = "None" if a.get("time") is None else "(Some %s)" % axis_coq(o["time_obs"])
+    tm = "None" if a.get("time") is None else given_axis_coq(a["time"], o.get("time_obs"))
     return "(ATs (mk_ts_args %s %s %s %s %s %s %s))" % (
         zlit(a["len"]), oval(a.get("t0")), oval(a.get("si")), oval(a.get("rate")), oval(a.get("duration")), tm,
         uarg_coq(a["unit"]))
@@ -294,7 +306,7 @@ def intended(a, o):
         t0 = val_exact_ps(a["t0"], unit) if a.get("t0") is not None else Fraction(0)
         if data is not None:
             dob = expected_axis(data)
-            if dob is None or o.get("data_obs") is None:
+            if dob is None or (o.get("data_obs") is None and o["t"] != "err"):
                 return None
             pat = tuple(int(x is not None) for x in (si, rate, length, dur))
             if pat in UT_DATA_VALID:
@@ -321,7 +333,7 @@ def intended(a, o):
         length = a["len"]
         if tm is not None:
             tob = expected_axis(tm)
-            if tob is None or o.get("time_obs") is None or si or rate or dur or tob["n"] != length:
+            if tob is None or (o.get("time_obs") is None and o["t"] != "err") or si or rate or dur or tob["n"] != length:
                 return None            # re-specifying a given axis: not covered by the statement's clear cases
             t0 = Fraction(tob["t0"]) if a.get("t0") is None else None
             unit = a["unit"] if a["unit"] is not None else tob["unit"]
@@ -454,6 +466,10 @@ def oracle(a, o):
     ad = a.get("data") or a.get("time")
     if ad is not None:
         e, g = expected_axis(ad), (o.get("data_obs") or o.get("time_obs"))
+        if g is None:
+            return Fail("C02/given-axis/%s/attributes" % (ad.get("derive") or "ctor"),
+                        "the axis handed to the constructor (obtained by %s) cannot be read: %s %s" % (
+                            ad.get("derive") or "the constructor", o.get("cls"), o.get("msg")), o, e)
         if any(g[k] != e[k] for k in ("n", "t0", "dt", "dur")) or not g["diff_ok"] or g["first"] != e["t0"]:
             return Fail("C02/given-axis/%s/attributes" % (ad.get("derive") or "ctor"),
                         "the axis handed to the constructor (obtained by %s) does not carry the attributes of its samples" % (
